@@ -522,6 +522,10 @@ func TestVerifC02(t *testing.T) {
 			emit(plNewServer(t, c), &plQuery{Name: name, QType: qt, Addr: cli, Answer: c02Answer(rnd, name, qt)}, "pause-expired-first-query")
 		}
 	}
+	// --- round 4: the request's client looked up in a registry that changes
+	// while the server runs (zz_verif_C02_clients_test.go)
+	c02RunRegistry(t, out, rnd.Fork(0xC02), base)
+
 	// --- round 3: rule lists switched off and on through the web API
 	{
 		// the user rules block a name, the only enabled allow list exempts
